@@ -210,6 +210,7 @@ TYPES = [
     Struct(F_LA, 'CompiledLookahead', derive=[]),
     Struct(F_DFA, 'CompiledDfa', derive=[]),
     RawFile('../common/dfa_wf.rs'),
+    RawFile('../common/dfa_match.rs'),
     RawFile('../u_dfa/spec.rs'),
 ]
 
